@@ -1,11 +1,1041 @@
-// In-crate verification harness (stub; see /verif/docs/SLICE_GUIDE.md).
+// In-crate verification harness for the app-side mempool (property C13).
+// Child module `mempool::verif` of crates/astria-sequencer/src/mempool/mod.rs (cargo feature
+// `verif-mempool`, cfg(test)); it drives the REAL `Mempool` with real signed transactions and
+// dumps its complete private state plus the answers of its public queries after every operation.
+//
+// Line protocol (area `mempool`), `t<k>` = k-th transaction created in the session:
+//   reset <parked_max> <results_max>
+//   mk t<k> <acct> <nonce> <kind> <fee_asset> <xfer_asset|-> <xfer_amount>        => <group>
+//   insert t<k> <cur_nonce> <b0>/<b1>/<b2> <c0>/<c1>/<c2> <at_ms>                  => pending|parked|err:<kind> | <dump>
+//   remove t<k> <reason>                                                           => ok | <dump>
+//   uncache t<k>                                                                   => ok | <dump>
+//   chain <acct> <nonce> <b0>/<b1>/<b2>                                            => ok
+//   fees <transfer> <init_bridge> <fee_asset_change> <sudo_change> <allowed bits>  => ok
+//   maintain <recost> <height> <t:code,..|-> <at_ms>                               => ok | <dump>
+// `_` in a balance/cost vector = the asset is missing from the map handed to the mempool.
 #![allow(clippy::pedantic, clippy::all, dead_code, unused_imports)]
 
 #[path = "/verif/harness/common.rs"]
 mod common;
 
+use std::{
+    collections::{
+        BTreeMap,
+        HashMap,
+    },
+    sync::Arc,
+};
+
+use astria_core::{
+    crypto::SigningKey,
+    primitive::v1::{
+        asset::{
+            Denom,
+            IbcPrefixed,
+        },
+        RollupId,
+        TransactionId,
+    },
+    protocol::{
+        fees::v1::FeeComponents,
+        transaction::v1::action::{
+            FeeAssetChange,
+            InitBridgeAccount,
+            SudoAddressChange,
+            Transfer,
+        },
+    },
+};
+use cnidarium::{
+    Snapshot,
+    StateDelta,
+};
+use common::{
+    Rng,
+    Trace,
+};
+use tendermint::abci::types::ExecTxResult;
+use tokio::time::{
+    Duration,
+    Instant,
+};
+
+use super::{
+    transactions_container::{
+        ParkedTransactions,
+        ParkedTransactionsForAccount,
+        PendingTransactions,
+        PendingTransactionsForAccount,
+        TimemarkedTransaction,
+        TransactionsContainer,
+        TransactionsForAccount,
+    },
+    InsertionError,
+    InsertionStatus,
+    Mempool,
+    MempoolInner,
+    RemovalReason,
+    TransactionStatus,
+    MAX_PARKED_TXS_PER_ACCOUNT,
+};
+use crate::{
+    accounts::{
+        AddressBytes as _,
+        StateWriteExt as _,
+    },
+    authority::StateWriteExt as _,
+    checked_transaction::CheckedTransaction,
+    fees::StateWriteExt as _,
+    test_utils::{
+        astria_address,
+        denom_0,
+        denom_1,
+        denom_2,
+        Fixture,
+        ALICE,
+        BOB,
+        CAROL,
+        IBC_SUDO,
+        SUDO,
+    },
+};
+
+const N_ACCTS: usize = 6;
+const N_ASSETS: usize = 3;
+const PROBE: u128 = 1 << 120;
+
+type Vec3 = [Option<u128>; N_ASSETS];
+
+fn keys() -> Vec<SigningKey> {
+    vec![
+        ALICE.clone(),
+        BOB.clone(),
+        CAROL.clone(),
+        SUDO.clone(),
+        IBC_SUDO.clone(),
+        SigningKey::from([0x5a; 32]),
+    ]
+}
+
+fn denoms() -> [Denom; N_ASSETS] {
+    [denom_0(), denom_1(), denom_2()]
+}
+
+fn ibc(i: usize) -> IbcPrefixed {
+    denoms()[i].to_ibc_prefixed()
+}
+
+fn to_map(v: &Vec3) -> HashMap<IbcPrefixed, u128> {
+    let mut m = HashMap::new();
+    for i in 0..N_ASSETS {
+        if let Some(x) = v[i] {
+            m.insert(ibc(i), x);
+        }
+    }
+    m
+}
+
+fn fmt_vec3(v: &Vec3) -> String {
+    v.iter()
+        .map(|x| x.map_or("_".to_string(), |x| x.to_string()))
+        .collect::<Vec<_>>()
+        .join("/")
+}
+
+fn parse_vec3(s: &str) -> Vec3 {
+    let p: Vec<&str> = s.split('/').collect();
+    let mut out = [None; N_ASSETS];
+    for i in 0..N_ASSETS {
+        out[i] = if p[i] == "_" { None } else { Some(p[i].parse().unwrap()) };
+    }
+    out
+}
+
+struct TxInfo {
+    acct: usize,
+    nonce: u32,
+    kind: usize,
+    fee_asset: usize,
+    xfer: Option<(usize, u128)>,
+    tx: Arc<CheckedTransaction>,
+}
+
+struct Session {
+    mempool: Mempool,
+    chain: StateDelta<Snapshot>,
+    t0: Instant,
+    txs: Vec<TxInfo>,
+    labels: HashMap<TransactionId, usize>,
+    // harness-side knowledge of the chain state (generation only)
+    nonces: [u32; N_ACCTS],
+    bals: [[u128; N_ASSETS]; N_ACCTS],
+    bal_put: [[bool; N_ASSETS]; N_ACCTS],
+    fees: [Option<u128>; 4],
+    allowed: [bool; N_ASSETS],
+    pmax: usize,
+    rmax: usize,
+    height: u64,
+    now_ms: u64,
+}
+
+struct Env {
+    build: Fixture,
+    chain_fx: Fixture,
+    keys: Vec<SigningKey>,
+}
+
+fn err_kind(e: &InsertionError) -> &'static str {
+    match e {
+        InsertionError::AlreadyPresent => "already-present",
+        InsertionError::NonceTooLow => "nonce-too-low",
+        InsertionError::NonceTaken => "nonce-taken",
+        InsertionError::NonceGap => "nonce-gap",
+        InsertionError::AccountSizeLimit => "account-size-limit",
+        InsertionError::AccountBalanceTooLow => "balance-too-low",
+        InsertionError::ParkedSizeLimit => "parked-size-limit",
+    }
+}
+
+fn fmt_reason(r: &RemovalReason) -> String {
+    match r {
+        RemovalReason::Expired => "exp".to_string(),
+        RemovalReason::NonceStale => "stale".to_string(),
+        RemovalReason::LowerNonceInvalidated => "lower".to_string(),
+        RemovalReason::FailedExecution(s) => format!("fail{s}"),
+        RemovalReason::InternalError => "int".to_string(),
+        RemovalReason::IncludedInBlock {
+            height,
+            result,
+        } => format!("inc{height}/{}", result.code.value()),
+    }
+}
+
+fn parse_reason(s: &str) -> RemovalReason {
+    match s {
+        "exp" => RemovalReason::Expired,
+        "stale" => RemovalReason::NonceStale,
+        "lower" => RemovalReason::LowerNonceInvalidated,
+        "int" => RemovalReason::InternalError,
+        _ => RemovalReason::FailedExecution(s.strip_prefix("fail").unwrap().to_string()),
+    }
+}
+
+fn label(s: &Session, id: &TransactionId) -> String {
+    match s.labels.get(id) {
+        Some(k) => format!("t{k}"),
+        None => format!("u{}", common::hex(&id.as_bytes()[..4])),
+    }
+}
+
+fn label_num(s: &Session, id: &TransactionId) -> u64 {
+    s.labels.get(id).map_or(u64::MAX, |k| *k as u64)
+}
+
+fn probe_costs(ttx: &TimemarkedTransaction) -> String {
+    let mut m: HashMap<IbcPrefixed, u128> = (0..N_ASSETS).map(|i| (ibc(i), PROBE)).collect();
+    if ttx.deduct_costs(&mut m).is_err() {
+        return "?".to_string();
+    }
+    (0..N_ASSETS)
+        .map(|i| (PROBE - m[&ibc(i)]).to_string())
+        .collect::<Vec<_>>()
+        .join("/")
+}
+
+fn acct_of(env: &Env, bytes: &[u8; 20]) -> usize {
+    env.keys
+        .iter()
+        .position(|k| &k.address_bytes() == bytes)
+        .unwrap_or(99)
+}
+
+fn dump_container<'a, I>(env: &Env, s: &Session, accounts: I) -> String
+where
+    I: Iterator<Item = (&'a [u8; 20], &'a BTreeMap<u32, TimemarkedTransaction>)>,
+{
+    let mut rows: Vec<(usize, u32, String)> = Vec::new();
+    for (addr, txs) in accounts {
+        let a = acct_of(env, addr);
+        for (nonce, ttx) in txs {
+            rows.push((
+                a,
+                *nonce,
+                format!("{a}:{nonce}:{}:{}", label(s, ttx.id()), probe_costs(ttx)),
+            ));
+        }
+    }
+    rows.sort();
+    if rows.is_empty() {
+        "-".to_string()
+    } else {
+        rows.into_iter().map(|r| r.2).collect::<Vec<_>>().join(",")
+    }
+}
+
+fn join_or_dash(v: Vec<String>) -> String {
+    if v.is_empty() {
+        "-".to_string()
+    } else {
+        v.join(",")
+    }
+}
+
+async fn dump(env: &Env, s: &Session) -> String {
+    let mut out = String::new();
+    {
+        let inner = s.mempool.inner.read().await;
+        let pend = <PendingTransactions as TransactionsContainer<PendingTransactionsForAccount>>::txs(
+            &inner.pending,
+        );
+        let p = dump_container(
+            env,
+            s,
+            pend.iter()
+                .map(|(a, q)| (a, <PendingTransactionsForAccount as TransactionsForAccount>::txs(q))),
+        );
+        let park = <ParkedTransactions<MAX_PARKED_TXS_PER_ACCOUNT> as TransactionsContainer<
+            ParkedTransactionsForAccount<MAX_PARKED_TXS_PER_ACCOUNT>,
+        >>::txs(&inner.parked);
+        let k = dump_container(
+            env,
+            s,
+            park.iter().map(|(a, q)| {
+                (
+                    a,
+                    <ParkedTransactionsForAccount<MAX_PARKED_TXS_PER_ACCOUNT> as TransactionsForAccount>::txs(q),
+                )
+            }),
+        );
+        let mut c: Vec<(u64, String)> = inner
+            .contained_txs
+            .iter()
+            .map(|id| (label_num(s, id), label(s, id)))
+            .collect();
+        c.sort();
+        let mut r: Vec<(u64, String)> = inner
+            .comet_bft_removal_cache
+            .cache
+            .iter()
+            .map(|(id, reason)| (label_num(s, id), format!("{}:{}", label(s, id), fmt_reason(reason))))
+            .collect();
+        r.sort();
+        let mut x = Vec::new();
+        for (k, info) in s.txs.iter().enumerate() {
+            if let Some(res) = inner.recent_execution_results.get(info.tx.id()) {
+                x.push(format!("t{k}:{}/{}", res.block_height(), res.result().code.value()));
+            }
+        }
+        out.push_str(&format!(
+            "P={p} K={k} C={} R={} QL={} X={} XL={}",
+            join_or_dash(c.into_iter().map(|e| e.1).collect()),
+            join_or_dash(r.into_iter().map(|e| e.1).collect()),
+            inner.comet_bft_removal_cache.remove_queue.len(),
+            join_or_dash(x),
+            inner.recent_execution_results.len(),
+        ));
+    }
+    // public queries
+    let bq: Vec<String> = s
+        .mempool
+        .builder_queue()
+        .await
+        .iter()
+        .map(|tx| label(s, tx.id()))
+        .collect();
+    let mut pn = Vec::new();
+    for (a, k) in env.keys.iter().enumerate() {
+        if let Some(n) = s.mempool.pending_nonce(&k.address_bytes()).await {
+            pn.push(format!("{a}:{n}"));
+        }
+    }
+    let mut st = Vec::new();
+    for (k, info) in s.txs.iter().enumerate() {
+        let code = match s.mempool.transaction_status(info.tx.id()).await {
+            None => "-".to_string(),
+            Some(TransactionStatus::Pending) => "P".to_string(),
+            Some(TransactionStatus::Parked) => "K".to_string(),
+            Some(TransactionStatus::Removed(r)) => fmt_reason(&r),
+        };
+        st.push(format!("t{k}:{code}"));
+    }
+    out.push_str(&format!(
+        " bq={} pn={} st={} len={}",
+        join_or_dash(bq),
+        join_or_dash(pn),
+        join_or_dash(st),
+        s.mempool.len().await
+    ));
+    out
+}
+
+async fn advance_to(s: &mut Session, at: u64) -> u64 {
+    let cur = Instant::now().duration_since(s.t0).as_millis() as u64;
+    if at > cur {
+        tokio::time::advance(Duration::from_millis(at - cur)).await;
+    }
+    let now = Instant::now().duration_since(s.t0).as_millis() as u64;
+    s.now_ms = now;
+    now
+}
+
+async fn make_tx(env: &mut Env, k: usize, acct: usize, nonce: u32, kind: usize, fee_asset: usize, xfer: Option<(usize, u128)>) -> Arc<CheckedTransaction> {
+    let mut seed = [0u8; 20];
+    seed[..8].copy_from_slice(&(k as u64).to_be_bytes());
+    seed[8] = 0x77;
+    let signer = env.keys[acct].clone();
+    if kind >= 2 {
+        // sudo actions are checked against the sudo address at construction
+        env.build
+            .state_mut()
+            .put_sudo_address(signer.address_bytes())
+            .unwrap();
+    }
+    let b = env
+        .build
+        .checked_tx_builder()
+        .with_signer(signer)
+        .with_nonce(nonce);
+    let b = match kind {
+        0 => {
+            let (asset, amount) = xfer.unwrap_or((0, 0));
+            b.with_action(Transfer {
+                to: astria_address(&seed),
+                amount,
+                asset: denoms()[asset].clone(),
+                fee_asset: denoms()[fee_asset].clone(),
+            })
+        }
+        1 => {
+            let mut rid = [0u8; 32];
+            rid[..20].copy_from_slice(&seed);
+            b.with_action(InitBridgeAccount {
+                rollup_id: RollupId::new(rid),
+                asset: denom_0(),
+                fee_asset: denoms()[fee_asset].clone(),
+                sudo_address: None,
+                withdrawer_address: None,
+            })
+        }
+        2 => b.with_action(FeeAssetChange::Addition(format!("verif{k}").parse().unwrap())),
+        _ => b.with_action(SudoAddressChange {
+            new_address: astria_address(&seed),
+        }),
+    };
+    b.build().await
+}
+
+async fn exec(env: &mut Env, sess: &mut Option<Session>, op: &str) -> String {
+    let t: Vec<&str> = op.split(' ').collect();
+    if t[0] == "reset" {
+        let pmax: usize = t[1].parse().unwrap();
+        let rmax: usize = t[2].parse().unwrap();
+        let mempool = Mempool::new(env.build.metrics(), pmax, rmax);
+        let chain = StateDelta::new(env.chain_fx.storage().latest_snapshot());
+        let s = Session {
+            mempool,
+            chain,
+            t0: Instant::now(),
+            txs: Vec::new(),
+            labels: HashMap::new(),
+            nonces: [0; N_ACCTS],
+            bals: [[0; N_ASSETS]; N_ACCTS],
+            bal_put: [[false; N_ASSETS]; N_ACCTS],
+            fees: [None; 4],
+            allowed: [true, false, false],
+            pmax,
+            rmax,
+            height: 10,
+            now_ms: 0,
+        };
+        let d = dump(env, &s).await;
+        *sess = Some(s);
+        return format!("ok | {d}");
+    }
+    let s = sess.as_mut().expect("reset first");
+    let tx_of = |s: &Session, tok: &str| -> usize {
+        let k: usize = tok[1..].parse().unwrap();
+        assert!(k < s.txs.len(), "unknown tx label {tok}");
+        k
+    };
+    match t[0] {
+        "mk" => {
+            let k: usize = t[1][1..].parse().unwrap();
+            assert_eq!(k, s.txs.len(), "labels are consecutive");
+            let acct: usize = t[2].parse().unwrap();
+            let nonce: u32 = t[3].parse().unwrap();
+            let kind: usize = t[4].parse().unwrap();
+            let fee_asset: usize = t[5].parse().unwrap();
+            let xfer = if t[6] == "-" {
+                None
+            } else {
+                Some((t[6].parse().unwrap(), t[7].parse().unwrap()))
+            };
+            let tx = make_tx(env, k, acct, nonce, kind, fee_asset, xfer).await;
+            let g = tx.group() as u8;
+            s.labels.insert(*tx.id(), k);
+            s.txs.push(TxInfo {
+                acct,
+                nonce,
+                kind,
+                fee_asset,
+                xfer,
+                tx,
+            });
+            format!("{g}")
+        }
+        "insert" => {
+            let k = tx_of(s, t[1]);
+            let cur: u32 = t[2].parse().unwrap();
+            let bal = to_map(&parse_vec3(t[3]));
+            let costs = to_map(&parse_vec3(t[4]));
+            let at: u64 = t[5].parse().unwrap();
+            let now = advance_to(s, at).await;
+            assert_eq!(now, at, "clock ran ahead of the trace");
+            let tx = s.txs[k].tx.clone();
+            let res = match s.mempool.insert(tx, cur, &bal, costs).await {
+                Ok(InsertionStatus::AddedToPending) => "pending".to_string(),
+                Ok(InsertionStatus::AddedToParked) => "parked".to_string(),
+                Err(e) => format!("err:{}", err_kind(&e)),
+            };
+            format!("{res} | {}", dump(env, s).await)
+        }
+        "remove" => {
+            let k = tx_of(s, t[1]);
+            let tx = s.txs[k].tx.clone();
+            s.mempool.remove_tx_invalid(tx, parse_reason(t[2])).await;
+            format!("ok | {}", dump(env, s).await)
+        }
+        "uncache" => {
+            let k = tx_of(s, t[1]);
+            let id = *s.txs[k].tx.id();
+            s.mempool.remove_from_removal_cache(&id).await;
+            format!("ok | {}", dump(env, s).await)
+        }
+        "chain" => {
+            let a: usize = t[1].parse().unwrap();
+            let n: u32 = t[2].parse().unwrap();
+            let b = parse_vec3(t[3]);
+            let addr = env.keys[a].address_bytes();
+            s.chain.put_account_nonce(&addr, n).unwrap();
+            s.nonces[a] = n;
+            for i in 0..N_ASSETS {
+                if let Some(x) = b[i] {
+                    s.chain.put_account_balance(&addr, &ibc(i), x).unwrap();
+                    s.bals[a][i] = x;
+                    s.bal_put[a][i] = true;
+                }
+            }
+            "ok".to_string()
+        }
+        "fees" => {
+            for kind in 0..4 {
+                if t[1 + kind] == "-" {
+                    continue;
+                }
+                let base: u128 = t[1 + kind].parse().unwrap();
+                match kind {
+                    0 => s.chain.put_fees(FeeComponents::<Transfer>::new(base, 0)).unwrap(),
+                    1 => s
+                        .chain
+                        .put_fees(FeeComponents::<InitBridgeAccount>::new(base, 0))
+                        .unwrap(),
+                    2 => s
+                        .chain
+                        .put_fees(FeeComponents::<FeeAssetChange>::new(base, 0))
+                        .unwrap(),
+                    _ => s
+                        .chain
+                        .put_fees(FeeComponents::<SudoAddressChange>::new(base, 0))
+                        .unwrap(),
+                }
+                s.fees[kind] = Some(base);
+            }
+            for (i, c) in t[5].chars().enumerate() {
+                if c == '1' {
+                    s.chain.put_allowed_fee_asset(&ibc(i)).unwrap();
+                    s.allowed[i] = true;
+                } else {
+                    s.chain.delete_allowed_fee_asset(&ibc(i));
+                    s.allowed[i] = false;
+                }
+            }
+            "ok".to_string()
+        }
+        "maintain" => {
+            let recost = t[1] == "1";
+            let height: u64 = t[2].parse().unwrap();
+            let mut results: HashMap<TransactionId, Arc<ExecTxResult>> = HashMap::new();
+            if t[3] != "-" {
+                for e in t[3].split(',') {
+                    let (l, c) = e.split_once(':').unwrap();
+                    let k = tx_of(s, l);
+                    let code: u32 = c.parse().unwrap();
+                    results.insert(
+                        *s.txs[k].tx.id(),
+                        Arc::new(ExecTxResult {
+                            code: code.into(),
+                            ..ExecTxResult::default()
+                        }),
+                    );
+                }
+            }
+            let at: u64 = t[4].parse().unwrap();
+            let now = advance_to(s, at).await;
+            assert_eq!(now, at, "clock ran ahead of the trace");
+            s.height = height;
+            s.mempool
+                .run_maintenance(&s.chain, recost, results, height)
+                .await;
+            format!("ok | {}", dump(env, s).await)
+        }
+        _ => panic!("unknown op {op}"),
+    }
+}
+
+// ---------------------------------------------------------------------------------------
+// generation (state-aware: looks at the real mempool through its queries to aim the next op)
+
+fn model_recost(s: &Session, kind: usize, fee_asset: usize, xfer: Option<(usize, u128)>) -> Option<[u128; N_ASSETS]> {
+    let base = s.fees[kind]?;
+    let mut c = [0u128; N_ASSETS];
+    if kind < 2 {
+        if !s.allowed[fee_asset] {
+            return None;
+        }
+        c[fee_asset] += base;
+    }
+    if let Some((a, m)) = xfer {
+        c[a] += m;
+    }
+    Some(c)
+}
+
+fn gen_vec(rng: &mut Rng, v: [u128; N_ASSETS], may_omit: [bool; N_ASSETS]) -> Vec3 {
+    let mut out = [None; N_ASSETS];
+    for i in 0..N_ASSETS {
+        out[i] = if v[i] == 0 && may_omit[i] && rng.chance(60) { None } else { Some(v[i]) };
+    }
+    out
+}
+
+struct Gen {
+    next_at: u64,
+}
+
+async fn pooled(s: &Session) -> (Vec<usize>, Vec<usize>) {
+    let mut p = Vec::new();
+    let mut k = Vec::new();
+    for (i, info) in s.txs.iter().enumerate() {
+        match s.mempool.transaction_status(info.tx.id()).await {
+            Some(TransactionStatus::Pending) => p.push(i),
+            Some(TransactionStatus::Parked) => k.push(i),
+            _ => {}
+        }
+    }
+    (p, k)
+}
+
+fn chain_line(s: &Session, a: usize, nonce: u32, bal: [u128; N_ASSETS], rng: &mut Rng) -> String {
+    let mut v = [None; N_ASSETS];
+    for i in 0..N_ASSETS {
+        // asset 0 always explicit (the genesis accounts hold nria in the snapshot)
+        v[i] = if i > 0 && bal[i] == 0 && !s.bal_put[a][i] && rng.chance(70) {
+            None
+        } else {
+            Some(bal[i])
+        };
+    }
+    format!("chain {a} {nonce} {}", fmt_vec3(&v))
+}
+
+async fn gen_insert(env: &Env, s: &Session, rng: &mut Rng, g: &mut Gen, ops: &mut Vec<String>) {
+    let (pend, park) = pooled(s).await;
+    let a = if rng.chance(70) { rng.below(3) as usize } else { rng.below(N_ACCTS as u64) as usize };
+    let cur = s.nonces[a];
+    let pn = s
+        .mempool
+        .pending_nonce(&env.keys[a].address_bytes())
+        .await
+        .unwrap_or(cur)
+        .max(cur);
+    let c = rng.below(100);
+    // duplicate of a tracked id (only where the documented precondition cannot be broken:
+    // the id is ready, or it is parked and the ready queue cannot take it)
+    if c < 4 && !pend.is_empty() {
+        let k = *rng.pick(&pend);
+        let i = &s.txs[k];
+        g.next_at += rng.range(1, 4);
+        ops.push(format!(
+            "insert t{k} {} {} {} {}",
+            s.nonces[i.acct],
+            fmt_vec3(&gen_vec(rng, s.bals[i.acct], [false, true, true])),
+            fmt_vec3(&[Some(1), None, None]),
+            g.next_at
+        ));
+        return;
+    }
+    if c < 7 && !park.is_empty() {
+        let k = *rng.pick(&park);
+        let i = &s.txs[k];
+        let cur_i = s.nonces[i.acct];
+        let prev_ready = pend
+            .iter()
+            .any(|p| s.txs[*p].acct == i.acct && s.txs[*p].nonce + 1 == i.nonce);
+        let same_ready = pend
+            .iter()
+            .any(|p| s.txs[*p].acct == i.acct && s.txs[*p].nonce == i.nonce);
+        if i.nonce != cur_i && !prev_ready && !same_ready && i.nonce > cur_i {
+            g.next_at += rng.range(1, 4);
+            ops.push(format!(
+                "insert t{k} {cur_i} {} {} {}",
+                fmt_vec3(&gen_vec(rng, s.bals[i.acct], [false, true, true])),
+                fmt_vec3(&[Some(1), None, None]),
+                g.next_at
+            ));
+            return;
+        }
+    }
+    let nonce: u32 = if c < 55 {
+        pn
+    } else if c < 72 {
+        pn + rng.range(1, 4) as u32
+    } else if c < 78 {
+        cur
+    } else if c < 83 {
+        cur.saturating_sub(rng.range(1, 2) as u32)
+    } else if c < 93 {
+        // replacement attempt / nonce already used by a tracked tx of this account
+        let mine: Vec<usize> = pend
+            .iter()
+            .chain(park.iter())
+            .copied()
+            .filter(|k| s.txs[*k].acct == a)
+            .collect();
+        if mine.is_empty() { pn } else { s.txs[*rng.pick(&mine)].nonce }
+    } else {
+        pn + rng.range(4, 20) as u32
+    };
+    let kind = match rng.below(100) {
+        0..=64 => 0,
+        65..=79 => 1,
+        80..=89 => 2,
+        _ => 3,
+    };
+    let fee_asset = if rng.chance(75) { 0 } else { rng.below(N_ASSETS as u64) as usize };
+    let scale = (s.bals[a][0].max(s.bals[a][1]) / 3).max(4) as u64;
+    let xfer = if kind == 0 {
+        Some((rng.below(N_ASSETS as u64) as usize, rng.below(scale + 1) as u128))
+    } else {
+        None
+    };
+    let k = s.txs.len();
+    ops.push(format!(
+        "mk t{k} {a} {nonce} {kind} {fee_asset} {}",
+        match xfer {
+            Some((x, m)) => format!("{x} {m}"),
+            None => "- 0".to_string(),
+        }
+    ));
+    // costs handed over by the caller: what the chain would charge, or arbitrary
+    let mut costs = [0u128; N_ASSETS];
+    match model_recost(s, kind, fee_asset, xfer) {
+        Some(c) if rng.chance(65) => costs = c,
+        _ => {
+            for i in 0..N_ASSETS {
+                costs[i] = match rng.below(10) {
+                    0..=3 => 0,
+                    4..=7 => rng.below(scale + 1) as u128,
+                    8 => s.bals[a][i],
+                    _ => s.bals[a][i] + 1,
+                };
+            }
+        }
+    }
+    // balances shown: the chain's, or something else
+    let mut bal = s.bals[a];
+    if rng.chance(15) {
+        for i in 0..N_ASSETS {
+            bal[i] = match rng.below(4) {
+                0 => bal[i] / 2,
+                1 => bal[i] + rng.below(50) as u128,
+                2 => 0,
+                _ => bal[i],
+            };
+        }
+    }
+    g.next_at += rng.range(1, 4);
+    ops.push(format!(
+        "insert t{k} {cur} {} {} {}",
+        fmt_vec3(&gen_vec(rng, bal, [true, true, true])),
+        fmt_vec3(&gen_vec(rng, costs, [true, true, true])),
+        g.next_at
+    ));
+}
+
+fn gen_at(rng: &mut Rng, g: &mut Gen) -> u64 {
+    g.next_at += match rng.below(100) {
+        0..=69 => rng.range(0, 50),
+        70..=84 => rng.range(500, 5_000),
+        85..=91 => 30_000,
+        92..=95 => 61_000,
+        96..=97 => 120_001,
+        _ => 240_001,
+    };
+    g.next_at
+}
+
+async fn gen_block(env: &Env, s: &Session, rng: &mut Rng, g: &mut Gen, ops: &mut Vec<String>) {
+    let q = s.mempool.builder_queue().await;
+    let max = if s.rmax < 50 { 1 } else { 6 };
+    let n = rng.below((q.len().min(max) + 1) as u64) as usize;
+    let mut nonces = s.nonces;
+    let mut bals = s.bals;
+    let mut touched = [false; N_ACCTS];
+    let mut dead = [false; N_ACCTS];
+    let mut results = Vec::new();
+    for tx in q.iter().take(n) {
+        let Some(k) = s.labels.get(tx.id()).copied() else { continue };
+        let i = &s.txs[k];
+        if dead[i.acct] || nonces[i.acct] != i.nonce {
+            continue;
+        }
+        if rng.chance(12) {
+            // fails execution while the block is built: the proposer removes it
+            ops.push(format!("remove t{k} fail{}", rng.below(3)));
+            dead[i.acct] = true;
+            continue;
+        }
+        nonces[i.acct] += 1;
+        touched[i.acct] = true;
+        for x in 0..N_ASSETS {
+            if rng.chance(60) {
+                bals[i.acct][x] = bals[i.acct][x].saturating_sub(rng.below((bals[i.acct][x] / 4 + 2) as u64) as u128);
+            }
+        }
+        results.push(format!("t{k}:{}", if rng.chance(85) { 0 } else { rng.range(1, 3) }));
+    }
+    if rng.chance(6) && !s.txs.is_empty() {
+        // a result for a transaction this mempool does not hold
+        let k = rng.below(s.txs.len() as u64) as usize;
+        if !results.iter().any(|r| r.starts_with(&format!("t{k}:"))) && (s.rmax >= 50 || results.is_empty()) {
+            results.push(format!("t{k}:0"));
+        }
+    }
+    for a in 0..N_ACCTS {
+        if touched[a] {
+            ops.push(chain_line(s, a, nonces[a], bals[a], rng));
+        }
+    }
+    let at = gen_at(rng, g);
+    ops.push(format!(
+        "maintain {} {} {} {at}",
+        u8::from(rng.chance(15)),
+        s.height + 1,
+        join_or_dash(results)
+    ));
+}
+
+fn gen_fees(s: &Session, rng: &mut Rng) -> String {
+    let mut f = Vec::new();
+    for kind in 0..4 {
+        f.push(match s.fees[kind] {
+            None if rng.chance(50) => "-".to_string(),
+            _ => match kind {
+                0 | 1 => rng.below(25).to_string(),
+                _ => rng.below(3).to_string(),
+            },
+        });
+    }
+    let allowed: String = (0..N_ASSETS)
+        .map(|i| {
+            let keep = if rng.chance(75) { s.allowed[i] } else { rng.chance(60) };
+            if keep { '1' } else { '0' }
+        })
+        .collect();
+    format!("fees {} {allowed}", f.join(" "))
+}
+
+async fn gen_step(env: &Env, s: &Session, rng: &mut Rng, g: &mut Gen) -> Vec<String> {
+    let mut ops = Vec::new();
+    let c = rng.below(100);
+    let (pend, park) = pooled(s).await;
+    if c < 56 {
+        gen_insert(env, s, rng, g, &mut ops).await;
+    } else if c < 64 {
+        // remove_tx_invalid
+        let all: Vec<usize> = pend.iter().chain(park.iter()).copied().collect();
+        let k = if !all.is_empty() && rng.chance(80) {
+            *rng.pick(&all)
+        } else if !s.txs.is_empty() {
+            rng.below(s.txs.len() as u64) as usize
+        } else {
+            return ops;
+        };
+        let reason = match rng.below(10) {
+            0 => "exp".to_string(),
+            1 => "int".to_string(),
+            _ => format!("fail{}", rng.below(3)),
+        };
+        ops.push(format!("remove t{k} {reason}"));
+    } else if c < 76 {
+        gen_block(env, s, rng, g, &mut ops).await;
+    } else if c < 86 {
+        // chain state moves without us: balance change and/or nonce bump, then maintenance
+        let n = rng.range(1, 2);
+        for _ in 0..n {
+            let a = rng.below(N_ACCTS as u64) as usize;
+            let mut bal = s.bals[a];
+            let mut nonce = s.nonces[a];
+            if rng.chance(75) {
+                for i in 0..N_ASSETS {
+                    bal[i] = match rng.below(8) {
+                        0 => 0,
+                        1 => bal[i] / 2,
+                        2 => bal[i].saturating_sub(rng.below(20) as u128),
+                        3 => bal[i] + rng.below(40) as u128,
+                        4 => bal[i] * 2 + 10,
+                        _ => bal[i],
+                    };
+                }
+            }
+            if rng.chance(35) {
+                nonce += rng.range(1, 3) as u32;
+            }
+            ops.push(chain_line(s, a, nonce, bal, rng));
+        }
+        if rng.chance(75) {
+            let at = gen_at(rng, g);
+            ops.push(format!("maintain {} {} - {at}", u8::from(rng.chance(20)), s.height + 1));
+        }
+    } else if c < 90 {
+        ops.push(gen_fees(s, rng));
+        let at = gen_at(rng, g);
+        ops.push(format!("maintain 1 {} - {at}", s.height + 1));
+    } else if c < 97 {
+        let at = gen_at(rng, g);
+        ops.push(format!("maintain {} {} - {at}", u8::from(rng.chance(30)), s.height + 1));
+    } else if !s.txs.is_empty() {
+        ops.push(format!("uncache t{}", rng.below(s.txs.len() as u64)));
+    }
+    ops
+}
+
+fn session_header(rng: &mut Rng, idx: u64) -> (String, Vec<String>) {
+    let pmax = match idx % 9 {
+        0 => 0,
+        1 => 1,
+        2 => rng.range(2, 4),
+        3 => rng.range(5, 9),
+        4 => 16,
+        5 => 20,
+        6 => 91,
+        _ => 200,
+    };
+    let rmax = match idx % 5 {
+        0 => rng.range(1, 3),
+        1 => 100,
+        _ => 10_000,
+    };
+    let mut init = Vec::new();
+    // initial fee table
+    let mut f = Vec::new();
+    for kind in 0..4 {
+        f.push(if rng.chance(80) {
+            match kind {
+                0 | 1 => rng.below(20).to_string(),
+                _ => "0".to_string(),
+            }
+        } else {
+            "-".to_string()
+        });
+    }
+    let allowed: String = (0..N_ASSETS).map(|i| if i == 0 || rng.chance(40) { '1' } else { '0' }).collect();
+    init.push(format!("fees {} {allowed}", f.join(" ")));
+    (format!("reset {pmax} {rmax}"), init)
+}
+
+async fn run(env: &mut Env, rng: &mut Rng, trace: &mut Trace) {
+    let mut sess: Option<Session> = None;
+    let emit = |trace: &mut Trace, op: &str, res: &str| trace.line(&format!("mempool {op} => {res}"));
+    if let Some(lines) = common::replay_lines() {
+        for op in lines {
+            let op = op.strip_prefix("mempool ").unwrap_or(&op).to_string();
+            let res = exec(env, &mut sess, &op).await;
+            emit(trace, &op, &res);
+        }
+        return;
+    }
+    for op in common::corpus_lines() {
+        let op = op.strip_prefix("mempool ").unwrap_or(&op).to_string();
+        let res = exec(env, &mut sess, &op).await;
+        emit(trace, &op, &res);
+    }
+    let sessions: u64 = if common::is_thorough() { 1500 } else { 160 };
+    for idx in 0..sessions {
+        let (reset, init) = session_header(rng, idx);
+        let res = exec(env, &mut sess, &reset).await;
+        emit(trace, &reset, &res);
+        for op in init {
+            let res = exec(env, &mut sess, &op).await;
+            emit(trace, &op, &res);
+        }
+        // initial chain state of every account
+        for a in 0..N_ACCTS {
+            let rich = rng.chance(70);
+            let mut bal = [0u128; N_ASSETS];
+            for i in 0..N_ASSETS {
+                bal[i] = if i == 2 && rng.chance(60) {
+                    0
+                } else if rich {
+                    rng.range(20, 200) as u128
+                } else {
+                    rng.below(12) as u128
+                };
+            }
+            let nonce = if rng.chance(50) { 0 } else { rng.below(6) as u32 };
+            let op = chain_line(sess.as_ref().unwrap(), a, nonce, bal, rng);
+            let res = exec(env, &mut sess, &op).await;
+            emit(trace, &op, &res);
+        }
+        let mut g = Gen {
+            next_at: 0,
+        };
+        let steps = if common::is_thorough() { rng.range(30, 140) } else { rng.range(25, 90) };
+        for _ in 0..steps {
+            let ops = gen_step(env, sess.as_ref().unwrap(), rng, &mut g).await;
+            for op in ops {
+                let res = exec(env, &mut sess, &op).await;
+                emit(trace, &op, &res);
+            }
+        }
+        // settle: a final maintenance so that every session ends on a validated state
+        let at = g.next_at + 1;
+        let h = sess.as_ref().unwrap().height + 1;
+        let op = format!("maintain 0 {h} - {at}");
+        let res = exec(env, &mut sess, &op).await;
+        emit(trace, &op, &res);
+    }
+}
+
 #[test]
 fn driver() {
-    let trace = common::Trace::from_env();
+    let mut rng = Rng::from_env();
+    let mut trace = Trace::from_env();
+    let rt = tokio::runtime::Builder::new_current_thread()
+        .enable_all()
+        .start_paused(true)
+        .build()
+        .unwrap();
+    rt.block_on(async {
+        let build = Fixture::default_initialized().await;
+        let mut chain_fx = Fixture::uninitialized(None).await;
+        chain_fx.chain_initializer().with_no_fees().init().await;
+        let mut env = Env {
+            build,
+            chain_fx,
+            keys: keys(),
+        };
+        run(&mut env, &mut rng, &mut trace).await;
+    });
     trace.finish();
 }
